@@ -1,4 +1,5 @@
 import RsddModel.Lemmas.UnitPropSolver
+import RsddModel.Lemmas.UnitPropTotal
 /-!
 # C09 — unit propagation and the SAT-state stack (`src/repr/unit_prop.rs`)
 
@@ -6,8 +7,9 @@ Model: `RsddModel/Model/UnitProp.lean` (differentially tested against the real `
 including the watch lists). Quantifier: every clause list × every history of `decide`/`pop`
 (`Reach`), any depth, any order, any polarity.
 
-Fuel: the recursive propagator runs on explicit fuel, all theorems are partial correctness
-("if the call returns …"); the driver shows the model returns wherever the code does.
+Fuel: the recursive propagator runs on explicit fuel and the theorems are stated as "if the call
+returns …"; `new_total` and `history_decide_total` show that with the fuel `Solver.new` installs
+the calls always return (on clause lists in `Cnf::new` normal form), so nothing is vacuous.
 
 Summary of what is proved here (all about the mirrored model):
 
@@ -235,12 +237,40 @@ theorem history_fixpoint {cnf : Cnf} (hN : CnfNormal cnf) {s : Solver} {ds : Lis
   rw [hst] at hst'; cases hst'
   exact fixpoint_of_watch (hI.two hN) (hI.watch top (by rw [hst]; simp)) hlev.units hI.nonempty
 
+/-- The watch invariant of a solver state, inductive across `decide` (successful or aborted by
+UNSAT, which leaves the lists partially updated) and `pop`:
+every clause of length ≥ 2 is in exactly two watch lists, those of two different literals of the
+clause, no list repeats an entry, nothing else is watched (`TwoWatch`); and for the model of
+*every* state on the stack, a clause watching a false literal has a true literal (`WatchOK`).
+The quantification over all stack levels is what makes it survive backtracking although `pop`
+does not restore the watch lists. -/
+def WatchInv (s : Solver) : Prop :=
+  TwoWatch s.cnf s.wl ∧ ∀ st, st ∈ s.stack → WatchOK s.cnf s.wl st.model
+
+theorem history_watchInv {cnf : Cnf} (hN : CnfNormal cnf) {s : Solver} {ds : List Lit}
+    (h : Reach cnf s ds) : WatchInv s := by
+  obtain ⟨hI, rfl⟩ := reach_inv h
+  exact ⟨hI.two hN, hI.watch⟩
+
 /-- the same for what the real constructor is given: `SATSolver::new(Cnf::new(clauses))`, for
 every raw clause list (duplicate and complementary literals included) -/
 theorem history_fixpoint_cnfNew (raw : Cnf) {s : Solver} {ds : List Lit}
     (h : Reach (cnfNew raw) s ds) {top : SatState} {rest : List SatState} (hst : s.stack = top :: rest) :
     IsFixpoint (cnfNew raw) top.model :=
   history_fixpoint (cnfNew_normal raw) h hst
+
+/-! ## the model never runs out of fuel -/
+
+/-- `SATSolver::new` of the model always answers (a solver or the Rust `None`) -/
+theorem new_total_normal {cnf : Cnf} (hN : CnfNormal cnf) : ∃ o, Solver.new cnf = some o :=
+  new_total hN
+
+/-- after any history, `decide` of any literal answers `SAT`, `UNSAT` or `Unknown` — never the
+model's `error` (fuel exhausted / empty stack) -/
+theorem history_decide_total {cnf : Cnf} (hN : CnfNormal cnf) {s : Solver} {ds : List Lit}
+    (h : Reach cnf s ds) (l : Lit) : ∃ s' r, s.decide l = .ok s' r := by
+  obtain ⟨hI, rfl⟩ := reach_inv h
+  exact decide_total hI hN l
 
 /-! ## popping restores the state before the matching decision -/
 
@@ -602,7 +632,10 @@ example : (match upClosure 10 exCnf (PModel.empty.set 0 true |>.set 2 false) wit
 #print axioms fixpoint
 #print axioms watch_invariants_preserved
 #print axioms history_fixpoint
+#print axioms history_watchInv
 #print axioms history_fixpoint_cnfNew
+#print axioms new_total_normal
+#print axioms history_decide_total
 #print axioms pop_restores
 #print axioms observables_eq
 #print axioms pop_keeps_watches
